@@ -1594,6 +1594,7 @@ class Interp(object):
 
     def call_function(self, fn, args, kwargs, force_body=False):
         """Call a live Python function of the repository (or a spec function)."""
+        fn = getattr(fn, '_sa_original_init', fn)      # SQLAlchemy-instrumented __init__ -> the real one
         mod = getattr(fn, '__module__', '') or ''
         if self.opaque_outside is not None and not mod.startswith('contracts') and \
                 not any(mod == m or mod.startswith(m + '.') for m in self.opaque_outside):
